@@ -670,6 +670,15 @@ namespace awkward {
   template <typename T>
   const SliceItemPtr
   SliceJaggedOf<T>::carry(const Index64& carry) const {
+    // the kernels below index offsets_ with carry[i] and carry[i] + 1 unchecked
+    for (int64_t i = 0;  i < carry.length();  i++) {
+      int64_t c = carry.data()[i];
+      if (c < 0  ||  c >= length()) {
+        throw std::invalid_argument(
+          std::string("index out of range while carrying a jagged slice of length ")
+          + std::to_string(length()) + FILENAME(__LINE__));
+      }
+    }
     IndexOf<T> nextoffsets(carry.length() + 1);
 
     struct Error err1 = kernel::carry_SliceJagged_offsets<T>(
